@@ -40,19 +40,30 @@ func (e *Engine) expandSweeps() {
 	}
 	var fns []*ssa.Function
 	for fn := range ssautil.AllFunctions(e.Prog) {
-		if fn.Pkg == nil || fn.Parent() != nil || fn.Synthetic != "" || len(fn.Blocks) == 0 {
+		if fn.Package() == nil || fn.Synthetic != "" || len(fn.Blocks) == 0 {
 			continue
 		}
 		fns = append(fns, fn)
 	}
 	sort.Slice(fns, func(i, j int) bool { return FuncKey(fns[i]) < FuncKey(fns[j]) })
 	for _, sw := range e.Sweeps {
+		var reach map[*ssa.Function]bool
+		if sw.Reachable {
+			reach = e.reachableFrom(fns, sw)
+		}
 		for _, fn := range fns {
-			if fn.Name() != sw.Name || !strings.HasPrefix(fn.Pkg.Pkg.Path(), sw.PkgPrefix) {
+			if reach != nil {
+				if !reach[fn] {
+					continue
+				}
+			} else if fn.Parent() != nil || (sw.Name != "*" && fn.Name() != sw.Name) || !strings.HasPrefix(fn.Package().Pkg.Path(), sw.PkgPrefix) {
 				continue
 			}
 			key := FuncKey(fn)
 			if ct, ok := e.Contracts[key]; ok {
+				if !hasMakeOrPanic(fn) {
+					continue // nothing the sweep's obligations could say about it; it stays under its own properties only
+				}
 				for _, p := range sw.Props {
 					has := false
 					for _, q := range ct.Props {
@@ -62,12 +73,93 @@ func (e *Engine) expandSweeps() {
 						ct.Props = append(ct.Props, p)
 					}
 				}
+				// contracted functions keep their own checks and gain the allocation bound
+				if len(ct.Checks) == 0 {
+					ct.Checks = []string{"default"}
+				}
+				ct.Checks = append(ct.Checks, "alloc")
 				continue
 			}
 			ct := &spec.FuncContract{Target: shortKey(key), Key: key, Props: append([]string{}, sw.Props...), Loops: map[int]*spec.LoopSpec{},
-				File: sw.File, Line: sw.Line, ErrPanics: true, Swept: true}
+				File: sw.File, Line: sw.Line, ErrPanics: true, Swept: true, Checks: []string{"panic", "alloc"}}
 			e.Contracts[key] = ct
-			e.ContractPkg[ct] = fn.Pkg.Pkg
+			e.ContractPkg[ct] = fn.Package().Pkg
 		}
 	}
+}
+
+// reachableFrom: the named root functions below the prefix plus every module function with a body that they can reach
+// through static calls, closures they create, deferred calls and interface method calls (resolved to every module type
+// implementing the interface). Functions of dependencies are not entered (their behaviour is assumed).
+func (e *Engine) reachableFrom(fns []*ssa.Function, sw *spec.Sweep) map[*ssa.Function]bool {
+	seen := map[*ssa.Function]bool{}
+	var work []*ssa.Function
+	push := func(fn *ssa.Function) {
+		if fn == nil || seen[fn] || fn.Blocks == nil || !e.inModule(fn) {
+			return
+		}
+		seen[fn] = true
+		work = append(work, fn)
+	}
+	for _, fn := range fns {
+		if fn.Parent() == nil && fn.Name() == sw.Name && strings.HasPrefix(fn.Package().Pkg.Path(), sw.PkgPrefix) {
+			push(fn)
+		}
+	}
+	for len(work) > 0 {
+		fn := work[len(work)-1]
+		work = work[:len(work)-1]
+		for _, b := range fn.Blocks {
+			for _, in := range b.Instrs {
+				var c *ssa.CallCommon
+				switch x := in.(type) {
+				case *ssa.Call:
+					c = &x.Call
+				case *ssa.Defer:
+					c = &x.Call
+				case *ssa.Go:
+					c = &x.Call
+				case *ssa.MakeClosure:
+					push(x.Fn.(*ssa.Function))
+				}
+				if c == nil {
+					continue
+				}
+				if c.IsInvoke() {
+					for _, t := range e.implementors(c) {
+						push(t)
+					}
+					continue
+				}
+				if sf, ok := c.Value.(*ssa.Function); ok {
+					push(sf)
+				}
+				for _, a := range c.Args {
+					if sf, ok := a.(*ssa.Function); ok {
+						push(sf)
+					}
+				}
+			}
+		}
+	}
+	// closures and synthetic wrappers are verified with their parents / not at all
+	out := map[*ssa.Function]bool{}
+	for fn := range seen {
+		if fn.Synthetic == "" && fn.Package() != nil {
+			out[fn] = true
+		}
+	}
+	return out
+}
+
+func hasMakeOrPanic(fn *ssa.Function) bool {
+	for _, b := range fn.Blocks {
+		for _, in := range b.Instrs {
+			switch in.(type) {
+			case *ssa.MakeSlice, *ssa.Panic:
+				return true
+			}
+		}
+	}
+	return false
 }
